@@ -164,6 +164,8 @@ class ScriptPZ:
         if seed is not None:
             self.seed_value = int(seed)
             self.episode = -1
+        if options and "episode" in options:
+            self.episode = int(options["episode"]) - 1  # reset options are part of the interface: "start with episode number k"
         self.episode += 1
         self.t = 0
         self.length = self._episode_length()
